@@ -69,11 +69,33 @@ class OdeModel:
         self.HEAT = ("attr", self.NI, "heating")
         self.COOL = ("attr", self.NI, "cooling")
         self.N_SPEC = ("call", ("global", "len"), (self.SPEC,), ())
-        self.assigned = {}
-        for f in fl.facts:
-            pass
+        self.RHSNAME, self.JACNAME = self._array_names()
+        self.RHS, self.JAC = ("acc", self.RHSNAME), ("acc", self.JACNAME)
         self.sites = []
         self._classify()
+
+    def _array_names(self):
+        """The locals playing the roles of rhs[] and jacrhs[] (robust to renaming)."""
+        fl = self.flow
+        rhs = jac = None
+        for f in fl.facts:
+            if f.kind == "return" and f.value:
+                for x in walk(f.value):
+                    if isinstance(x, tuple) and len(x) == 5 and x[0] == "meth" and x[2] == "Jacobian":
+                        a = list(x[3]) + [v for k, v in x[4] if k == "rhs"]
+                        if a and a[-1][0] == "acc":
+                            jac = a[-1][1]
+        for name, lst in fl.assigns.items():
+            for v, loops, guards, line, seq in lst:
+                if v[0] == "meth" and v[2] == "Jacobian":
+                    a = list(v[3]) + [x for k, x in v[4] if k == "rhs"]
+                    if a and a[-1][0] == "acc":
+                        jac = a[-1][1]
+                if v[0] == "comp" and len(v[3]) == 1 and v[3][0][1][0] == "call" and v[3][0][1][1] == ("global", "zip") and len(v[3][0][1][2]) == 2:
+                    b = v[3][0][1][2][1]
+                    if b[0] == "acc":
+                        rhs = b[1]
+        return rhs or "rhs", jac or "jacrhs"
 
     # ---- recognisers -------------------------------------------------------
     def is_has_thermal(self, v) -> bool:
@@ -120,20 +142,21 @@ class OdeModel:
     # ---- classification -----------------------------------------------------
     def _classify(self):
         for f in self.flow.facts:
-            if f.target not in ("rhs", "jacrhs"):
+            if f.target not in (self.RHSNAME, self.JACNAME):
                 continue
+            role = "rhs" if f.target == self.RHSNAME else "jacrhs"
             if f.kind == "init":
-                self.sites.append(Site(f.target, f, "init"))
+                self.sites.append(Site(role, f, "init"))
                 continue
             if f.kind not in ("augstore", "store"):
-                self.sites.append(Site(f.target, f, "other", problems=[("viol", "unexpected-writer", f"{f.kind} on {f.target}")]))
+                self.sites.append(Site(role, f, "other", problems=[("viol", "unexpected-writer", f"{f.kind} on {f.target}")]))
                 continue
-            self.sites.append(self._site(f))
+            self.sites.append(self._site(f, role))
 
-    def _site(self, f) -> Site:
-        s = Site(f.target, f, "other")
+    def _site(self, f, role) -> Site:
+        s = Site(role, f, "other")
         idx = simp(f.index)
-        if f.target == "rhs":
+        if role == "rhs":
             row, col = idx, None
         else:
             d = self.decode_flat(idx)
